@@ -129,12 +129,14 @@ class Analysis(object):
         self.reads.sort(key=lambda r: (r.lineno, r.col_offset))
         self.project = project
 
-    def query(self, op, i):
+    def query(self, op, i, ctx=None):
         node = self.reads[i]
         try:
             if op == 'names_at':
                 return ('ok', n_name(node.flow.names_at(np(node)).get(node.id)))
-            ctx = EvalCtx(self.project)
+            # a request creates its own context; helpers that walk a whole file (assistant.usages,
+            # linter.check_names) share one - both are histories on one analysis
+            ctx = ctx or EvalCtx(self.project)
             if op == 'evaluate':
                 v = ctx.evaluate(node)
                 try:
@@ -246,14 +248,15 @@ def check_text(text, filename, rng, stats, max_reads=40, ops=('names_at', 'evalu
         if exhaustive:
             stats['probes']['modules_with_all_permutations'] += 1
     for order in orders:
-        for opmode in (ops if len(orders) <= 24 else (rng.choice(ops),)) + ('mixed',):
+        for opmode in (ops if len(orders) <= 24 else (rng.choice(ops),)) + ('mixed', 'mixed-shared-ctx'):
             a = Analysis(text, filename, fresh_project())
+            shared = EvalCtx(a.project) if opmode == 'mixed-shared-ctx' else None
             stats['evals'] += 1
             hist = []
             for k, j in enumerate(order):
                 i = sel[j]
-                op = opmode if opmode != 'mixed' else ops[(k + j) % len(ops)]
-                got = a.query(op, i)
+                op = opmode if not opmode.startswith('mixed') else ops[(k + j) % len(ops)]
+                got = a.query(op, i, shared)
                 hist.append((op, i))
                 if got != fresh[(op, i)]:
                     node = a.reads[i]
@@ -407,6 +410,7 @@ def gen_case(seed, i, mode):
     base = [G.gen_request(r, spec, uid='q%d' % j) for j in range(r.choice((3, 4, 6, 8)))]
     reqs = [{'kind': q['kind'], 'source': q['source'], 'position': q['position'], 'file': q['file']} for q in base]
     reqs += G.cycle_requests(r, spec)[:6]
+    reqs += G.relative_requests(r, spec)[:4]
     orders = []
     for _ in range(r.choice((2, 3, 4))):
         orders.append([r.randrange(len(reqs)) for _ in range(n)])
